@@ -488,15 +488,25 @@ def MisloadedPub(inp, tab, ev):
 
 @act
 def GenChildren(inp, tab, ev):
-    """bulk child generation: node.generate_children((start, end)) -> the children start..end-1, in order"""
+    """bulk child generation: node.generate_children((start, end)) -> the children start..end-1, in order.
+    inp.step: a third interval element (the API hands the interval to range()): the indexes asked for are then listed in
+    inp.idxs; inp.prf: chosen PRF"""
     from . import refwallet as W
+    from .recorders import PrfTap
     st, en = int.from_bytes(bytes(inp["start"]), "big"), int.from_bytes(bytes(inp["end"]), "big")
+    prf = make_prf(inp.get("prf"))
     rpar = ref_node(tab, inp["par"])
-    for i in range(st, en):
-        if i < 2 ** 32:
-            W.ckd(tab, rpar, i)
+    interval = (st, en)
+    if inp.get("step") is not None:
+        step = -inp["step"]["mag"] if inp["step"]["neg"] else inp["step"]["mag"]
+        interval = (st, en, step)
+        assert [list(x) for x in inp["idxs"]] == [list(i.to_bytes(4, "big")) for i in range(*interval)], "idxs must list range(*interval)"
+    for i in range(*interval):
+        if 0 <= i < 2 ** 32:
+            W.ckd(tab, rpar, i, prf)
     par = py_node(inp["par"])
-    ok, v = call(lambda: list(par.generate_children((st, en)) if argform(inp) else par.generate_children(interval=(st, en))))
+    with PrfTap(prf):
+        ok, v = call(lambda: list(par.generate_children(interval) if argform(inp) else par.generate_children(interval=interval)))
     ev["res"] = res_of(ok, v, lambda l: [node_json(c) for c in l])
 
 
@@ -1085,6 +1095,18 @@ def Bip85(inp, tab, ev):
     # other wallets of the same process asked the same question first (their answers are not judged here)
     for other in inp.get("warm", []):
         call(request(BIP85DeterministicEntropy(master_node=py_node(other))))
+    if inp.get("churn"):
+        # many OTHER masters lived and died in this process before (each answered the same question, was dropped and
+        # collected): whatever the library remembers must not outlive - or be confused with - the object it was about
+        import gc
+        m0 = inp["master"]
+        k0 = int.from_bytes(bytes(m0["k"]), "big")
+        for j in range(inp["churn"]):
+            o = dict(m0, k=B(((k0 + 7919 * (j + 1)) % (R.N - 1) + 1).to_bytes(32, "big")))
+            be_ = BIP85DeterministicEntropy(master_node=py_node(o))
+            call(request(be_))
+            del be_
+            gc.collect()
     if inp.get("derived_from") is not None:
         # the BIP85 master is a node DERIVED in this process (it has a parent object): BIP85 starts at the node it is given
         root_ = py_node(inp["derived_from"]["root"])
